@@ -194,6 +194,11 @@ func (w *Walker) EventsOf(fr *Frame) []*Event {
 			}
 			ev := &Event{Fr: fr, Kind: kind, Site: ins}
 			c := ci.Common()
+			if c.IsInvoke() && strings.HasPrefix(kind, "nft.") {
+				// the SDK nft keeper behind a narrow interface: same argument layout as the
+				// call of the concrete method (receiver first)
+				ev.Args = append(ev.Args, w.ts.Of(c.Value, fr))
+			}
 			for _, a := range c.Args {
 				ev.Args = append(ev.Args, w.ts.Of(a, fr))
 			}
